@@ -54,10 +54,10 @@ func (f *StringRepeat) Call(s *slip.Scope, args slip.List, depth int) slip.Objec
 	} else {
 		slip.TypePanic(s, depth, "string", args[0], "string")
 	}
-	if num, ok := args[1].(slip.Fixnum); ok {
+	if num, ok := args[1].(slip.Fixnum); ok && 0 <= num {
 		count = int(num)
 	} else {
-		slip.TypePanic(s, depth, "count", args[1], "fixnum")
+		slip.TypePanic(s, depth, "count", args[1], "non-negative fixnum")
 	}
 	return slip.String(strings.Repeat(str, count))
 }
